@@ -34,6 +34,25 @@ PopCount(n) == IF n = 0 THEN 0 ELSE (n % 2) + PopCount(n \div 2)
 MmrGet(leaves, pos) == leaves[pos + 1]                                \* positions are 0-based
 PeakCountIsPopCount(leaves) == Len(Peaks(leaves, 1)) = PopCount(Len(leaves))
 
+\* helper procedures of the MMR module on numbers given as little-endian sequences of 16-bit limbs
+RECURSIVE TO16(_), TrailingOnes(_)
+TO16(x) == IF x % 2 = 0 THEN 0 ELSE 1 + TO16(x \div 2)
+\* mmr::trailing_ones / u32unchecked_trailing_ones : number of consecutive one bits from the least significant end
+TrailingOnes(l) == IF l = <<>> THEN 0 ELSE IF l[1] = 65535 THEN 16 + TrailingOnes(Tail(l)) ELSE TO16(l[1])
+\* mmr::ilog2_checked : [ilog2, power_of_two] for a non-zero 32-bit number (fails for zero)
+TopLimb(l) == CHOOSE i \in 1 .. Len(l) : l[i] # 0 /\ \A j \in (i + 1) .. Len(l) : l[j] = 0
+ILog2L(l) == 16 * (TopLimb(l) - 1) + HighBit(l[TopLimb(l)])
+Pow2L(k, n) == [i \in 1 .. n |-> IF i = (k \div 16) + 1 THEN Pow2(k % 16) ELSE 0]
+\* mmr::num_peaks_to_message_size : the peaks are hashed as a sequence padded with empty words to at least 16 words and
+\* to an even number of words ("padded to an even length and to have a minimum size of 16 elements"); counted in words
+PeakWords(np) == LET m == IF np < 16 THEN 16 ELSE np IN m + (m % 2)
+\* mmr::pack returns the hash of the padded peaks and files num_leaves || padded peaks under it; mmr::unpack(HASH, ptr)
+\* writes num_leaves and the peaks at ptr: Unpack(Pack(m)) = m, and the hash is the accumulator's peak hash (a primitive)
+PaddedPeaks(peaks) == peaks \o [i \in 1 .. (PeakWords(Len(peaks)) - Len(peaks)) |-> 0]          \* 0 = the empty word
+
+\* mem::pipe_double_words_to_memory : the words write_ptr .. end_ptr - 1 (an even, positive number) come from the advice
+\* stack in order; the hasher state absorbs them two words at a time; the returned pointer is end_ptr
+
 \* sparse Merkle tree = map key -> value (0 = empty) ; set returns the old value ; get returns the value
 SmtGet(map, k) == map[k]
 SmtSet(map, k, v) == [old |-> map[k], map |-> [map EXCEPT ![k] = v]]
